@@ -205,12 +205,54 @@ TailTree(c) ==
         t2 == IF c.fetch = "none" THEN t1 ELSE t1 @@ [Fetch |-> f]
     IN IF c.lock = "none" THEN t2 ELSE t2 @@ [For |-> l]
 
+\* ---- window specifications: PARTITION BY / ORDER BY / frame (unit, start bound, optional end bound) ----------------
+FrameUnits == {"none", "ROWS", "RANGE"}
+Bounds == {"UP", "nP", "CR", "nF", "UF"}     \* UNBOUNDED PRECEDING, 2 PRECEDING, CURRENT ROW, 3 FOLLOWING, UNBOUNDED FOLLOWING
+BoundRank(b) == CASE b = "UP" -> 1 [] b = "nP" -> 2 [] b = "CR" -> 3 [] b = "nF" -> 4 [] b = "UF" -> 5
+WindowCfg == [partition : 0..2, order : BOOLEAN, unit : FrameUnits, start : Bounds, end : Bounds \cup {"none"}]
+ValidWindow(c) == /\ (c.unit = "none" => c.start = "UP" /\ c.end = "none")
+                  /\ c.start # "UF"
+                  /\ (c.end # "none" => c.end # "UP" /\ BoundRank(c.start) <= BoundRank(c.end))
+                  /\ (c.end = "none" => c.start \in {"UP", "nP", "CR"})
+                  /\ (c.partition > 0 \/ c.order \/ c.unit # "none")
+BoundToks(b) == CASE b = "UP" -> <<"UNBOUNDED", "PRECEDING">> [] b = "nP" -> <<"2", "PRECEDING">> [] b = "CR" -> <<"CURRENT", "ROW">>
+                  [] b = "nF" -> <<"3", "FOLLOWING">> [] b = "UF" -> <<"UNBOUNDED", "FOLLOWING">>
+BoundTree(b) == CASE b = "UP" -> [T |-> "WindowFrameBound", Type |-> "UNBOUNDED PRECEDING"]
+                  [] b = "nP" -> [T |-> "WindowFrameBound", Type |-> "PRECEDING", Value |-> IntLit("2")]
+                  [] b = "CR" -> [T |-> "WindowFrameBound", Type |-> "CURRENT ROW"]
+                  [] b = "nF" -> [T |-> "WindowFrameBound", Type |-> "FOLLOWING", Value |-> IntLit("3")]
+                  [] b = "UF" -> [T |-> "WindowFrameBound", Type |-> "UNBOUNDED FOLLOWING"]
+WindowToks(c) ==
+    <<"SELECT", "SUM", "(", "a", ")", "OVER", "(">>
+      \o (CASE c.partition = 1 -> <<"PARTITION", "BY", "b">> [] c.partition = 2 -> <<"PARTITION", "BY", "b", ",", "c">> [] OTHER -> <<>>)
+      \o (IF c.order THEN <<"ORDER", "BY", "d", "DESC">> ELSE <<>>)
+      \o (IF c.unit = "none" THEN <<>>
+          ELSE IF c.end = "none" THEN <<c.unit>> \o BoundToks(c.start)
+          ELSE <<c.unit, "BETWEEN">> \o BoundToks(c.start) \o <<"AND">> \o BoundToks(c.end))
+      \o <<")", "FROM", "t">>
+WindowTree(c) ==
+    LET w0 == [T |-> "WindowSpec"]
+        w1 == CASE c.partition = 1 -> w0 @@ [PartitionBy |-> <<Id("b")>>] [] c.partition = 2 -> w0 @@ [PartitionBy |-> <<Id("b"), Id("c")>>] [] OTHER -> w0
+        w2 == IF c.order THEN w1 @@ [OrderBy |-> <<OrderItem(Id("d"), FALSE, "none")>>] ELSE w1
+        f0 == [T |-> "WindowFrame", Type |-> c.unit, Start |-> BoundTree(c.start)]
+        f == IF c.end = "none" THEN f0 ELSE f0 @@ [End |-> BoundTree(c.end)]
+        w == IF c.unit = "none" THEN w2 ELSE w2 @@ [FrameClause |-> f]
+    IN [S1 EXCEPT !.Columns = <<[T |-> "FunctionCall", Name |-> "SUM", Arguments |-> <<Id("a")>>, Over |-> w]>>]
+
+\* ---- grouping extensions ----------------------------------------------------------------------------------------------
+GroupExt == {"ROLLUP", "CUBE"}
+GroupExtToks(g, n) == S1t \o <<"GROUP", "BY", g, "(", "a">> \o (IF n = 2 THEN <<",", "b">> ELSE <<>>) \o <<")">>
+GroupExtTree(g, n) == S1 @@ [GroupBy |-> <<[T |-> (IF g = "ROLLUP" THEN "RollupExpression" ELSE "CubeExpression"),
+                                          Expressions |-> (IF n = 2 THEN <<Id("a"), Id("b")>> ELSE <<Id("a")>>)]>>]
+
 VARIABLES case, done
 vars == <<case, done>>
 Init == /\ done = FALSE
         /\ \/ \E c \in SelectCfg : ValidSelect(c) /\ case = [name |-> "select", cfg |-> c, toks |-> SelToks(c), tree |-> SelTree(c)]
            \/ \E f \in Forms : case = [name |-> f.name, cfg |-> <<>>, toks |-> f.toks, tree |-> f.tree]
            \/ \E c \in TailCfg : ValidTail(c) /\ case = [name |-> "tail", cfg |-> c, toks |-> TailToks(c), tree |-> TailTree(c)]
+           \/ \E c \in WindowCfg : ValidWindow(c) /\ case = [name |-> "window-spec", cfg |-> c, toks |-> WindowToks(c), tree |-> WindowTree(c)]
+           \/ \E g \in GroupExt, n \in 1..2 : case = [name |-> "group-" \o g, cfg |-> <<>>, toks |-> GroupExtToks(g, n), tree |-> GroupExtTree(g, n)]
            \/ \E cx \in OrderCtx, l \in OrderLists :
                  case = [name |-> "order-" \o cx, cfg |-> l, toks |-> OrderToks(cx, l), tree |-> OrderTree(cx, l)]
 Run == /\ ~done /\ done' = TRUE /\ UNCHANGED case
@@ -230,6 +272,12 @@ OrderItemLaw == (case.name = "order-select") =>
     \A i \in 1..Len(case.cfg) :
         /\ (("NullsFirst" \in DOMAIN case.tree.OrderBy[i]) <=> (case.cfg[i].nulls # "none"))
         /\ (("Ascending" \in DOMAIN case.tree.OrderBy[i]) <=> (case.cfg[i].dir # "DESC"))
+\* a frame is present exactly when a unit was written; an end bound exactly when BETWEEN was
+WindowLaw == (case.name = "window-spec") =>
+    LET w == case.tree.Columns[1].Over IN
+    /\ (("FrameClause" \in DOMAIN w) <=> (Tok("ROWS") \/ Tok("RANGE")))
+    /\ (("FrameClause" \in DOMAIN w) => (("End" \in DOMAIN w.FrameClause) <=> Tok("BETWEEN")))
+    /\ (("PartitionBy" \in DOMAIN w) <=> Tok("PARTITION")) /\ (("OrderBy" \in DOMAIN w) <=> Tok("ORDER"))
 TailLaw == (case.name = "tail") =>
     /\ (Tok("FETCH") <=> Has("Fetch")) /\ (Tok("FOR") <=> Has("For")) /\ (Tok("OFFSET") <=> Has("Offset"))
     /\ (Tok("OF") <=> (Has("For") /\ "Tables" \in DOMAIN case.tree.For))
